@@ -19,3 +19,21 @@ func (v *Muxer) ZZRoutes() int {
 	}
 	return n
 }
+
+// ZZNewReverseProxy builds the reverse proxy without the net/http machinery.
+func ZZNewReverseProxy(rs *Routers) *HTTPReverseProxy { return &HTTPReverseProxy{vhostRouter: rs} }
+
+func (r *Routers) ZZCount() int {
+	n := 0
+	for _, byUser := range r.indexByDomain {
+		for _, rs := range byUser {
+			n += len(rs)
+		}
+	}
+	return n
+}
+
+func (r *Routers) ZZHas(domain, location, user string) bool {
+	_, ok := r.exist(domain, location, user)
+	return ok
+}
